@@ -505,9 +505,13 @@ func (f *frame) unreachableResults(res *types.Tuple) []T {
 }
 
 func (f *frame) inlineClosure(mc *ssa.MakeClosure, args []T, st *State, pc string, at *ssa.Call) []T {
+	return f.inlineClosureAt(mc, args, st, pc, at.Name())
+}
+
+func (f *frame) inlineClosureAt(mc *ssa.MakeClosure, args []T, st *State, pc string, at string) []T {
 	g := f.g
 	fn := mc.Fn.(*ssa.Function)
-	sub := g.newFrame(fn, fmt.Sprintf("%s%s@%s.", f.prefix, fn.Name(), at.Name()), false)
+	sub := g.newFrame(fn, fmt.Sprintf("%s%s@%s.", f.prefix, fn.Name(), at), false)
 	for k, fv := range fn.FreeVars {
 		b := mc.Bindings[k]
 		if a, ok := f.addrs[b]; ok {
